@@ -57,6 +57,24 @@ def cut_open(rng, t: PT, p_cut: float = 0.25, root: bool = True) -> PT:
     return (i, s, [cut_open(rng, k, p_cut, False) for k in kids])
 
 
+def single_cuts(t: PT) -> List[PT]:
+    """all open prefixes of t in which exactly ONE nonterminal inner node (not the root) is cut open; same ids"""
+    out: List[PT] = []
+
+    def rec(node: PT, rebuild):
+        i, s, kids = node
+        if kids is None:
+            return
+        for k_idx, k in enumerate(kids):
+            ki, ks, kk = k
+            if kk is not None and is_nt(ks):
+                out.append(rebuild((i, s, kids[:k_idx] + [(ki, ks, None)] + kids[k_idx + 1 :])))
+            rec(k, lambda sub, k_idx=k_idx, i=i, s=s, kids=kids: rebuild((i, s, kids[:k_idx] + [sub] + kids[k_idx + 1 :])))
+
+    rec(t, lambda x: x)
+    return out
+
+
 def complete(rng, c: Canon, t: PT, ids: IdGen, depth: int = 4) -> PT:
     """a closed completion of the open tree t: every open leaf is expanded by a random derivation; all nodes of t
     (open leaves included) keep their identities, new nodes get fresh ones"""
